@@ -260,6 +260,40 @@ type Case struct {
 	Endless bool `json:"endless,omitempty"`
 	// DeadlineMS (plan deadline): the export context expires that long after the call started.
 	DeadlineMS int `json:"deadline_ms,omitempty"`
+	// Twin: a second exporter instance of the same kind exists in the process, pointed at the
+	// same collector, with its OWN independently generated timeout and retry configuration
+	// (see Twin). It is the instance the interfering exports (Interfere) go through; without
+	// Interfere it is only constructed (and shut down after the case). The case's own export is
+	// judged by the case's own configuration exactly as if the twin did not exist: every clause
+	// of the statement is per exporter.
+	Twin *Twin `json:"twin,omitempty"`
+}
+
+// Twin is the configuration of the second exporter instance of a case.
+type Twin struct {
+	// First: the twin is constructed before the case's own exporter (otherwise after it).
+	First bool `json:"first,omitempty"`
+	// the twin's own timeout, same encoding as Case.Timeout*
+	TimeoutMS      int    `json:"timeout_ms"`
+	TimeoutVia     string `json:"timeout_via,omitempty"`
+	TimeoutNS      int64  `json:"timeout_ns,omitempty"`
+	TimeoutOtherMS int    `json:"timeout_other_ms,omitempty"`
+	TimeoutSpell   string `json:"timeout_spell,omitempty"`
+	// the twin's own retry configuration
+	RetryEnabled  bool `json:"retry_enabled"`
+	InitialMS     int  `json:"initial_ms"`
+	MaxIntervalMS int  `json:"max_interval_ms"`
+	MaxElapsedMS  int  `json:"max_elapsed_ms"`
+}
+
+// asCase: the case with the twin's configuration in place of its own (for the
+// timeout / environment helpers).
+func (w Twin) asCase(c Case) Case {
+	c.Twin = nil
+	c.TimeoutMS, c.TimeoutVia, c.TimeoutNS, c.TimeoutOtherMS, c.TimeoutSpell = w.TimeoutMS, w.TimeoutVia, w.TimeoutNS, w.TimeoutOtherMS, w.TimeoutSpell
+	c.RetryEnabled, c.InitialMS, c.MaxIntervalMS, c.MaxElapsedMS = w.RetryEnabled, w.InitialMS, w.MaxIntervalMS, w.MaxElapsedMS
+	c.InitialNS, c.MaxIntervalNS, c.MaxElapsedNS = 0, 0, 0
+	return c
 }
 
 // satAdd adds durations, saturating instead of wrapping around.
@@ -935,7 +969,42 @@ func genContextEnd(t *rapid.T, c *Case, g *genCtx) {
 	}
 }
 
+// genCase: a case (genCase1) and, for one case in three - and for every case
+// with interfering exports, whose second exporter it configures, two in three -
+// a twin: a second exporter instance of the same kind with an independently
+// generated timeout (the whole range of genLongTimeout / genShortTimeout, every
+// route) and retry configuration, constructed before or after the case's own
+// exporter. Two exporters in one process are two exporters: each keeps its own
+// configuration, so the verdict on the case's export does not change.
 func genCase(isGRPC bool) func(*rapid.T) Case {
+	inner := genCase1(isGRPC)
+	return func(t *rapid.T) Case {
+		c := inner(t)
+		p := 33
+		if c.Interfere > 0 || c.shortTO() {
+			p = 66
+		}
+		if c.Life == "shutdown_then_export" || rng(t, "twin", 0, 99) >= p {
+			return c
+		}
+		var tc Case
+		if c.Interfere == 0 && rng(t, "twin_short_timeout", 0, 3) == 0 {
+			genShortTimeout(t, &tc)
+		} else {
+			genLongTimeout(t, &tc)
+		}
+		w := &Twin{First: rng(t, "twin_first", 0, 2) == 0,
+			TimeoutMS: tc.TimeoutMS, TimeoutVia: tc.TimeoutVia, TimeoutNS: tc.TimeoutNS, TimeoutOtherMS: tc.TimeoutOtherMS, TimeoutSpell: tc.TimeoutSpell}
+		w.RetryEnabled = rng(t, "twin_retry_disabled", 0, 4) > 0
+		w.InitialMS = oneOf(t, "twin_initial_ms", 0, 1, 5, 400, 600000)
+		w.MaxIntervalMS = oneOf(t, "twin_max_interval_ms", 0, 5, 400, 600000)
+		w.MaxElapsedMS = oneOf(t, "twin_max_elapsed_ms", 0, 1, 20, 500, 5000, 60000)
+		c.Twin = w
+		return c
+	}
+}
+
+func genCase1(isGRPC bool) func(*rapid.T) Case {
 	return func(t *rapid.T) Case {
 		c := Case{Plan: "none"}
 		if isGRPC {
@@ -1440,6 +1509,25 @@ func finite(c Case) bool {
 	if c.Interfere != 0 && (c.Interfere < 0 || c.Interfere > 2 || c.Plan != "none" || c.InterfereK < 0 || c.InterfereK >= len(c.Script)) {
 		return false
 	}
+	if c.Twin != nil {
+		tc := c.Twin.asCase(c)
+		tc.Plan, tc.Endless, tc.Interfere, tc.Script = "none", false, 0, []Step{{Kind: "status", RetryInfoMS: -1}}
+		tc.Life, tc.AgeMS, tc.Warmup, tc.DeadlineMS, tc.HugeRetryAfter = "", 0, false, 0, ""
+		if tc.InitialMS < 0 || tc.MaxIntervalMS < 0 || tc.MaxElapsedMS < 0 {
+			return false
+		}
+		// only the twin's timeout is validated like a case's own: whatever its retry
+		// configuration, the only exports made through the twin are answered with success at once
+		tc.RetryEnabled, tc.InitialMS, tc.MaxIntervalMS, tc.MaxElapsedMS = false, 1, 5, 0
+		if !finite(tc) {
+			return false
+		}
+		// the interfering exports go through the twin and are answered with success at
+		// once: only a timeout that may cut such an attempt could make them fail
+		if c.Interfere != 0 && tc.shortTO() {
+			return false
+		}
+	}
 	return c.PlanDelayMS >= 0 && c.PlanDelayMS <= 100
 }
 
@@ -1583,27 +1671,51 @@ func execute(c Case) (ob observation) {
 			opts.proxy = col.proxy
 		}
 	}
-	h, err := newHandle(c.Exporter, addr, opts)
-	if err != nil {
-		stop()
-		ob.setupErr = err
-		return ob
-	}
-	var other handle
-	if c.Interfere > 0 {
-		// same kind, same options (gzip, retry, timeout, headers); a role header
-		// lets the collector keep its requests apart; different payload
+	var h, other handle
+	var err error
+	mkOther := func() error {
+		if c.Interfere == 0 && c.Twin == nil {
+			return nil
+		}
+		// same kind, same gzip / headers; a role header lets the collector keep
+		// its requests apart; different payload. Without Case.Twin also the same
+		// retry configuration and timeout, with it the twin's own.
 		o2 := opts
 		o2.mark, o2.proxy, o2.life = markOther, nil, ""
 		o2.headers = map[string]string{roleHeader: "interferer"}
 		for k, v := range opts.headers {
 			o2.headers[k] = v
 		}
-		if other, err = newHandle(c.Exporter, addr, o2); err != nil {
-			stop()
-			ob.setupErr = err
-			return ob
+		if c.Twin != nil {
+			tc := c.Twin.asCase(c)
+			o2.rc = retryCfg{Enabled: tc.RetryEnabled, Initial: tc.initial(), MaxInterval: tc.maxInterval(), MaxElapsed: tc.maxElapsed()}
+			o2.env, o2.timeout, o2.timeoutSet = tc.timeoutEnv(), 0, false
+			if tc.TimeoutVia == "" || tc.TimeoutVia == "option" || tc.TimeoutVia == "option_over_env" {
+				o2.timeout, o2.timeoutSet = tc.timeout()
+			}
 		}
+		var err error
+		other, err = newHandle(c.Exporter, addr, o2)
+		return err
+	}
+	if c.Twin != nil && c.Twin.First {
+		err = mkOther()
+	}
+	if err == nil {
+		h, err = newHandle(c.Exporter, addr, opts)
+	}
+	if err == nil && !(c.Twin != nil && c.Twin.First) {
+		err = mkOther()
+	}
+	if err != nil {
+		for _, f := range []func(){h.close, other.close} {
+			if f != nil {
+				bounded(5*time.Second, f)
+			}
+		}
+		stop()
+		ob.setupErr = err
+		return ob
 	}
 	ctx, cancel := context.WithCancel(context.Background())
 	closeConns := func() {
@@ -1961,7 +2073,14 @@ func evaluate(c Case, ob observation) []vk.Violation {
 		bad("returns_late_after_context_end", "Export returned %v after its context %s (retry config: InitialInterval %v, MaxInterval %v, MaxElapsedTime %v)", ob.ret-ctxEnd, how, c.initial(), c.maxInterval(), c.maxElapsed())
 	}
 	if !ob.returned && !ob.abortOverrun && !ob.ctxOverrun {
-		bad("export_blocked_beyond_budget", "Export did not return within the script's budget %v + %v", budget(c), blockMargin)
+		to, _ := c.timeout()
+		twin := "no second exporter instance"
+		if c.Twin != nil {
+			tc := c.Twin.asCase(c)
+			tto, _ := tc.timeout()
+			twin = fmt.Sprintf("a second exporter instance of the same kind, constructed %s this one, has its own timeout %s = %v via %q", map[bool]string{true: "before", false: "after"}[c.Twin.First], tc.timeoutClass(), tto, tc.TimeoutVia)
+		}
+		bad("export_blocked_beyond_budget", "Export did not return within the script's budget %v + %v (this exporter's timeout %s = %v via %q, MaxElapsedTime %v; %s)", budget(c), blockMargin, c.timeoutClass(), to, c.TimeoutVia, c.maxElapsed(), twin)
 	}
 	if c.Life == "shutdown_then_export" {
 		// An export through an exporter that has been shut down: the six
@@ -2274,6 +2393,24 @@ func classify(c Case, ob observation) vk.Info {
 	info.Class(fmt.Sprintf("attempts=%d", len(es)))
 	info.Class("plan=" + c.Plan)
 	info.ClassIf(c.Plan != "none" && ob.planFired, "plan_fired")
+	if c.Twin != nil {
+		tc := c.Twin.asCase(c)
+		order := "constructed_after"
+		if c.Twin.First {
+			order = "constructed_first"
+		}
+		info.Class("twin_exporter=" + order)
+		info.Class("twin_timeout=" + tc.timeoutClass() + "/own_timeout=" + c.timeoutClass())
+		held := false
+		for _, st := range c.Script {
+			held = held || st.Kind == "hold" || st.Kind == "slow"
+		}
+		a, _ := c.timeout()
+		b, _ := tc.timeout()
+		info.ClassIf(held && a != b, "twin_exporter/different_timeouts+slow_or_held_answer/"+order)
+		info.ClassIf(c.RetryEnabled != tc.RetryEnabled || c.initial() != tc.initial() || c.maxElapsed() != tc.maxElapsed(), "twin_exporter/different_retry_config")
+		info.ClassIf(c.Interfere > 0, "twin_exporter/makes_the_interfering_exports")
+	}
 	if ob.shutdownCalledAt >= 0 && ob.returned && abortPlan(c.Plan) && ob.shutdownAt >= 0 {
 		info.Class("shutdown_abort/" + c.Exporter + "=export_aborted_within_deadline+slack")
 	}
